@@ -375,7 +375,8 @@ def placement_case(ctx):
                 return
         ks = list(range(n))
         if ctx.tier == 'quick' and len(ks) > 12:
-            ks = sorted(rng.sample(ks, 12))
+            # the first calls (top-level discovery, the open of the top-level Manifest) always, the rest sampled
+            ks = sorted(set(ks[:5]) | set(rng.sample(ks, 9)))
         for k in ks:
             code = rng.choice(INJ_ERRNOS)
             scen = {'op': 'placement', 'operation': op, 'variant': variant, 'call_index': k, 'of': n, 'errno': code,
